@@ -1,10 +1,10 @@
 """C17 — simulated-annealing acceptance follows the Metropolis rule; geometric cooling (spec/Operators.tla)."""
 import os
 import vlib
-from checks import ops_common as oc
+from checks import ops_common as oc, runlib
 
 MANIFEST = {
-    "modules": ["Operators"],
+    "modules": ["Operators", "Run"],
     "text": "ExponentialAnnealingAcceptance and GeometricCooling are actions of Operators.tla on the stack layout "
             "the SA template produces and the component documents (current solution below, candidate on top) and "
             "on the cooling count temp (T = T0 * alpha^temp). TLC checks the decision table (candidate better / "
@@ -14,7 +14,10 @@ MANIFEST = {
             "exactly one factor and nothing else changes the temperature. Every enumerated case is executed on "
             "the real components; per (pair, T) cell N seeded executions are recorded and TLC's trace validation "
             "counts the accepted ones and requires the count within the 6-sigma band of N * exp(-(f(S') - f(S)) / T); "
-            "runs in template order (All, generation, cooling, acceptance) are validated step by step.",
+            "runs in template order (All, generation, cooling, acceptance) are validated step by step. Template level "
+            "(spec/Run.tla, clause group C17): every step of real_sa / permutation_sa runs under the step observer; "
+            "the acceptance step directly follows the cooling step and is taken at T = t_0 * alpha^(passes + 1), "
+            "no other component changes the temperature, and the runs reach their termination condition.",
     "technique": "TLA+ decision relation + TLC model checking + TLC trace validation with acceptance counters per (pair, T) cell",
     "design_ref": "DESIGN.md §6 C17",
     "note": "harness-side float predicates (trusted): the probability class and the 6-sigma count bounds are computed "
@@ -49,6 +52,9 @@ def run(ctx):
     oc.trace_vacuity(tr2, ops + ["all", "set_top"], "SA template step")
     ctx.validate("Trace_Operators", oc.CFG_TRACE, tr2, "random", oc.DESCRIBE, {"driver": "operators"},
                  timeout=1700)
+    runlib.run_templates(ctx, ["C17"], seeds=[ctx.seed, ctx.seed + 1] if q else list(range(ctx.seed, ctx.seed + 20)),
+                         iters=[0, 1, 7, 40] if q else [0, 1, 7, 40, 300], name="sa-runs",
+                         templates=["real_sa", "permutation_sa"], quick_grid=False)
     ctx.assumptions += [
         "acceptance frequency: two-sided 6-sigma band per cell of N = %d seeded executions" % (1000 if q else 4000),
         "stack layout = the one src/heuristics/sa.rs produces and replacement/sa.rs documents (S below, S' on top)"]
@@ -56,4 +62,7 @@ def run(ctx):
 
 
 def replay(ctx, rp):
+    if rp.get("meta", {}).get("driver") == "templates":
+        runlib.replay(ctx, rp, ["C17"])
+        return ctx.finish(RULE)
     return oc.replay(ctx, rp, RULE)
